@@ -23,6 +23,7 @@ type rreq struct {
 	acked     bool
 	completed bool
 	window    bool // issued through the forced ack-before-register window (finding F16)
+	f22       bool // shares its identifier with a request of the other numbering (finding F22)
 	stage     int  // QoS 2 outbound: 0 sent, 1 PUBREC seen
 }
 
@@ -31,10 +32,12 @@ type refClient struct {
 	active                   []*rreq // completed subscribe requests
 	in2                      map[int]mq.Pub
 	inflight                 map[int]bool // identifiers of requests written and not yet acknowledged
+	auto                     map[int]bool // ... and whether the library numbered the request
+	stuck                    [4]string    // per queue: the listed finding that blocks it
 	f16                      bool
 }
 
-func newRef() *refClient { return &refClient{in2: map[int]mq.Pub{}, inflight: map[int]bool{}} }
+func newRef() *refClient { return &refClient{in2: map[int]mq.Pub{}, inflight: map[int]bool{}, auto: map[int]bool{}} }
 
 func (r *refClient) connect(connack []byte, err error) []string {
 	p, rest, ok, ferr := mq.NextPacket(connack)
@@ -113,22 +116,32 @@ func (r *refClient) check(ev hx.Group, ok bool, pkts [][]byte, cbs []cbRec) []st
 			}
 		}
 	}
-	newReq := func(kind string, pid, done int) *rreq {
+	// asked: the identifier the application gave the request (0 = numbered by the library)
+	newReq := func(kind string, pid, done int, asked int64) *rreq {
 		if pid == 0 {
 			fail("C12: the %s request was written with packet identifier 0", kind)
 		}
+		collided := false
 		if r.inflight[pid] {
-			fail("C12: packet identifier %d is used by two requests in flight", pid)
+			if (asked == 0) != r.auto[pid] {
+				collided = true
+				// finding F22: the library numbers an id-less request from a process-wide counter without looking at the
+				// identifiers the application chose for requests still in flight
+				fail("F22-auto-id-collision: (C12) packet identifier %d is used by two requests in flight: one was numbered by the library, the other by the application", pid)
+			} else {
+				fail("C12: packet identifier %d is used by two requests in flight", pid)
+			}
 		}
 		r.inflight[pid] = true
-		return &rreq{pid: pid, done: done, granted: map[string]bool{}}
+		r.auto[pid] = asked == 0
+		return &rreq{pid: pid, done: done, granted: map[string]bool{}, f22: collided}
 	}
 
 	switch ev[0] {
 	case 1:
 		if ok && len(pkts) == 1 && mq.Type(pkts[0]) == mq.SUBSCRIBE {
 			b := pkts[0][len(pkts[0])-bodyLen(pkts[0]):]
-			rq := newReq("SUBSCRIBE", int(b[0])<<8|int(b[1]), int(ev[2]))
+			rq := newReq("SUBSCRIBE", int(b[0])<<8|int(b[1]), int(ev[2]), ev[1])
 			rq.pubcb = int(ev[3])
 			seen := map[string]bool{}
 			for _, f := range takeFilters(int(ev[4]), true, ev[5:]) {
@@ -144,7 +157,7 @@ func (r *refClient) check(ev hx.Group, ok bool, pkts [][]byte, cbs []cbRec) []st
 	case 2:
 		if ok && len(pkts) == 1 && mq.Type(pkts[0]) == mq.UNSUBSCRIBE {
 			b := pkts[0][len(pkts[0])-bodyLen(pkts[0]):]
-			rq := newReq("UNSUBSCRIBE", int(b[0])<<8|int(b[1]), int(ev[2]))
+			rq := newReq("UNSUBSCRIBE", int(b[0])<<8|int(b[1]), int(ev[2]), ev[1])
 			for _, f := range takeFilters(int(ev[3]), false, ev[4:]) {
 				rq.filters = append(rq.filters, f.f)
 			}
@@ -176,7 +189,11 @@ func (r *refClient) check(ev hx.Group, ok bool, pkts [][]byte, cbs []cbRec) []st
 				r.pub1 = append([]*rreq{rq}, r.pub1...) // checked below like any acknowledged head entry
 			}
 		default:
-			rq := newReq("PUBLISH", pub.PID, done)
+			asked := ev[3]
+			if ev[0] == 6 {
+				asked = ev[2]
+			}
+			rq := newReq("PUBLISH", pub.PID, done, asked)
 			rq.window = ev[0] == 6
 			if ev[0] == 6 {
 				r.f16 = true
@@ -322,13 +339,21 @@ func (r *refClient) check(ev hx.Group, ok bool, pkts [][]byte, cbs []cbRec) []st
 	// FIFO rule: a request whose acknowledgement and those of all earlier requests of its kind have
 	// arrived must have completed by now; completed subscribe requests become active, completed
 	// unsubscribe requests end their filters
-	for _, l := range []*[]*rreq{&r.subs, &r.unsubs, &r.pub1, &r.pub2} {
+	for i, l := range []*[]*rreq{&r.subs, &r.unsubs, &r.pub1, &r.pub2} {
 		for len(*l) > 0 && (*l)[0].acked {
 			x := (*l)[0]
 			if x.done != 0 && !x.completed {
+				// a listed finding explains a missing completion exactly when the request itself is its witness, or
+				// when it waits behind such a request in the same queue (released in order only)
 				tag := "C12"
-				if r.f16 {
-					tag = "F16-ack-before-register: (C12)"
+				if x.window {
+					r.stuck[i] = "F16-ack-before-register"
+				}
+				if x.f22 {
+					r.stuck[i] = "F22-auto-id-collision"
+				}
+				if r.stuck[i] != "" {
+					tag = r.stuck[i] + ": (C12)"
 				}
 				fail("%s: request id=%d was acknowledged (and so were all earlier ones) but its completion callback %d has not fired", tag, x.pid, x.done)
 				break
